@@ -25,7 +25,7 @@ def search(contract, cfgname, registry, repo, Ds=(1, 2, 3, 4), timeout_ms=4000, 
             if ob.kind not in only_kinds or z3.is_true(ob.goal): continue
             for g in E._split_goal(ob.goal):
                 s = z3.Solver(); s.set('timeout', timeout_ms)
-                s.add(*ob.assume); s.add(*st.alg.axioms); s.add(z3.Not(g))
+                s.add(*ob.assume); s.add(*ob.axioms); s.add(z3.Not(g))
                 # prefer small, well-separated inputs so that the native replay is numerically meaningful
                 r = s.check()
                 if r != z3.sat: continue
